@@ -37,7 +37,7 @@ EXHAUSTIVE_NOTE = "every truncation point and every single-byte flip (0xFF) in t
 ZIP_NAMES = ["a.zip", "b.ZIP", "c.Jar", "d.war", "e.EAR", "f.zip", "lib.jar", "with space.zip", "ünï.zip"]
 OTHER_NAMES = ["data.bin", "zipped.txt", "g.zipx", "h.zip.bak"]
 MEMBER_NAMES = ["m.txt", "dir/", "dir/inner.log", "dir/sub/", "dir/sub/deep.rs", "sp ace.txt", "ünï.md", "big.bin", "e", ".hid",
-                "x.zip", "README", "a/b/c/d.txt"]
+                "x.zip", "README", "a/b/c/d.txt", "dir/.inner", ".hd/", ".hd/plain.txt", "a/.b/", "a/.b/c"]
 CLOCKS = [None, None, 1706702400, 1709208000, 1698753600, 1703980800]   # real, 2024-01-31, 2024-02-29, 2023-10-31, 2023-12-31
 
 
@@ -91,7 +91,8 @@ def strategy_(draw, tier):
         names = draw(st.lists(st.sampled_from(MEMBER_NAMES), min_size=0, max_size=draw(st.sampled_from([0, 1, 3, 6, 12])), unique=True))
         members = [draw(member(n)) for n in names]
         trees.subtree(spec, d)["%d%s" % (i, nm)] = {"t": "z", "members": members}
-    q = draw(st.sampled_from(["plain", "plain", "where-size", "where-name", "where-isdir", "order-limit", "aggregate"]))
+    q = draw(st.sampled_from(["plain", "plain", "where-size", "where-name", "where-isdir", "order-limit", "aggregate",
+                              "where-hidden", "where-dates", "where-dates-ne"]))
     case = {"kind": "search", "tree": spec, "q": q, "mode": draw(st.sampled_from(["", "bfs", "dfs"])),
             "clock": draw(st.sampled_from(CLOCKS)),
             "window": draw(st.sampled_from([None, None, None, [0, 1], [1, 2], [2, 0], [2, 2]])),
@@ -185,6 +186,14 @@ def where_text(case):
         return "name like '%.txt'", lambda r: glob.like_match("%.txt", r[1])
     if q == "where-isdir":
         return "is_dir = true", lambda r: r[3] == "true"
+    if q == "where-hidden":
+        # hidden as for an ordinary entry: the name of the member itself (its last component) begins with a dot
+        return "is_hidden = true", lambda r: r[1].split("] ", 1)[1].rstrip("/").rsplit("/", 1)[-1].startswith(".")
+    if q == "where-dates":
+        # a member has no access time: it is neither before nor after anything, and the search goes on
+        return "modified >= accessed", lambda r: False
+    if q == "where-dates-ne":
+        return "modified != accessed", lambda r: True
     return None, lambda r: True
 
 
